@@ -398,12 +398,13 @@ def run_de(ctx, tag, queries):
     return res
 
 
-def run_export(ctx, tag, how, out_dir, env_extra=None):
+def run_export(ctx, tag, how, out_dir, env_extra=None, clean=True):
     """run the compiled corpus binary in export mode; returns (per-program step results, {program index: {rel path: text}})"""
     import subprocess
     d = os.path.join(vlib.BUILD, f"e2e-{tag}")
     binary = os.path.join(d, "target", "debug", f"e2e-{tag}")
-    shutil.rmtree(out_dir, ignore_errors=True)
+    if clean:
+        shutil.rmtree(out_dir, ignore_errors=True)
     os.makedirs(out_dir, exist_ok=True)
     env = vlib.cargo_env()
     if env_extra:
